@@ -507,6 +507,8 @@ func (f *FnCtx) runTop() {
 	}
 	// type invariants of the receiver: assumed at entry, unless this is a constructor
 	fr.assumeTypeInvariants(st)
+	fr.sweepPassWriter(st)
+	fr.sweepParamsReadOnly(st)
 	ret := fr.run(st)
 	if ret == nil {
 		return // never returns normally
@@ -2269,6 +2271,119 @@ func (fr *frame) loopTypeInvariants(h *ssa.BasicBlock, st *bstate, from *ssa.Bas
 				continue
 			}
 			f.oblige(st, fmt.Sprintf("%s#loop%d:type-invariant:%s:%s", fnShortName(fr.fn), fr.loopOrd[h], ts.Name, clauseLabel(inv)), "type-invariant", inv.Tags, v, inv.Src, inv.Line)
+		}
+	}
+}
+
+// sweep kind "passwriter": a function that receives the output stream (an io.Writer parameter) only
+// passes it on to functions of the module; it never writes to it itself and never hands it to library
+// code (json.NewEncoder, fmt.Fprint...).  The one function that writes frames is exempted by nosweep.
+func (fr *frame) sweepPassWriter(st *bstate) {
+	f := fr.f
+	if !f.sweep["passwriter"] || f.dry {
+		return
+	}
+	var check func(v ssa.Value, what string, depth int)
+	check = func(v ssa.Value, what string, depth int) {
+		if v.Referrers() == nil || depth > 3 {
+			return
+		}
+		for _, r := range *v.Referrers() {
+			bad := ""
+			switch u := r.(type) {
+			case *ssa.DebugRef:
+			case *ssa.MakeClosure:
+				// captured by a closure of this function: look at what the closure does with it
+				if cf, ok := u.Fn.(*ssa.Function); ok {
+					for i, b := range u.Bindings {
+						if b == v && i < len(cf.FreeVars) {
+							check(cf.FreeVars[i], what, depth+1)
+						}
+					}
+				}
+			case *ssa.Store:
+				if u.Val == v {
+					if _, isCell := u.Addr.(*ssa.Alloc); !isCell {
+						bad = "stored away"
+					} else {
+						check(u.Addr, what, depth+1)
+					}
+				}
+			case *ssa.UnOp:
+				if u.Op == token.MUL {
+					check(u, what, depth+1)
+				}
+			case *ssa.MakeInterface, *ssa.ChangeInterface, *ssa.TypeAssert:
+				check(r.(ssa.Value), what, depth+1)
+			case ssa.CallInstruction:
+				cc := u.Common()
+				if cc.IsInvoke() && cc.Value == v {
+					bad = "written to directly (" + cc.Method.Name() + ")"
+				} else if callee := cc.StaticCallee(); callee == nil || callee.Pkg == nil || !inModule(callee.Pkg.Pkg) {
+					bad = "handed to code outside the module"
+				}
+			default:
+				bad = fmt.Sprintf("used by %T", r)
+			}
+			if bad != "" {
+				f.oblige(st, fmt.Sprintf("%s#output-stream-only-passed-on:%s", fnShortName(fr.fn), what), "safety", f.sweepTags, "false",
+					"the output stream "+what+" is "+bad+" here; only the frame writer may write to it", posStr(f.e.fset, r.Pos()))
+			}
+		}
+	}
+	for _, p := range fr.fn.Params {
+		if n, ok := p.Type().(*types.Named); ok && n.Obj().Pkg() != nil && n.Obj().Pkg().Path() == "io" && n.Obj().Name() == "Writer" {
+			check(p, p.Name(), 0)
+		}
+	}
+}
+
+// sweep kind "paramsro": the function does not assign to its parameters (what its closures and
+// callees see under a parameter's name is what the caller passed).  Structural.
+func (fr *frame) sweepParamsReadOnly(st *bstate) {
+	f := fr.f
+	if !f.sweep["paramsro"] || f.dry {
+		return
+	}
+	pnames := map[string]*ssa.Parameter{}
+	for _, p := range fr.fn.Params {
+		pnames[p.Name()] = p
+	}
+	var writes func(v ssa.Value, name string, depth int)
+	writes = func(v ssa.Value, name string, depth int) {
+		if v.Referrers() == nil || depth > 3 {
+			return
+		}
+		for _, r := range *v.Referrers() {
+			switch u := r.(type) {
+			case *ssa.Store:
+				if u.Addr == v {
+					if p, isP := u.Val.(*ssa.Parameter); isP && p == pnames[name] && depth == 0 {
+						continue // the initial copy of the argument into the variable
+					}
+					f.oblige(st, fmt.Sprintf("%s#parameter-not-reassigned:%s", fnShortName(fr.fn), name), "safety", f.sweepTags, "false",
+						"the parameter "+name+" is assigned to inside the function", posStr(f.e.fset, u.Pos()))
+				}
+			case *ssa.FieldAddr:
+				writes(u, name, depth+1)
+			case *ssa.IndexAddr:
+				writes(u, name, depth+1)
+			case *ssa.MakeClosure:
+				if cf, ok := u.Fn.(*ssa.Function); ok {
+					for i, b := range u.Bindings {
+						if b == v && i < len(cf.FreeVars) {
+							writes(cf.FreeVars[i], name, depth+1)
+						}
+					}
+				}
+			}
+		}
+	}
+	for _, b := range fr.fn.Blocks {
+		for _, in := range b.Instrs {
+			if a, ok := in.(*ssa.Alloc); ok && pnames[a.Comment] != nil {
+				writes(a, a.Comment, 0)
+			}
 		}
 	}
 }
